@@ -21,6 +21,8 @@ import VsgProofs.Lemmas.ApplyRules
 -- >>> WP1 layer P
 import VsgModel.Generated.ClassifyProg
 import VsgProofs.Lemmas.ProgThms
+import VsgProofs.Lemmas.ProgValue
+import VsgProofs.Lemmas.ProgLink
 -- <<< WP1 layer P
 namespace Vsgm.C04
 open Vsgm Vsgm.Lex
@@ -486,3 +488,146 @@ example : (match ((run demoSys 6).call 0 [.toks, .int 2, .cls 9] (initState demo
 
 end Vsgm.C04
 -- <<< WP1 layer P
+
+-- >>> WP1b layer P: value preservation of the classifier productions
+namespace Vsgm.C04
+open Vsgm.Prog
+
+/-- **productions, values**: if every function of the table passes `Chk.value` (the token list is written only by
+    the fused stores `L[X] = C(L[X].get_value())` / `L[X] = C()` of `utils.py`; no `pop`, `insert`, free
+    `l[i] = v`), then after ANY call — any fuel, function, arguments, also when it ends in an exception — the number
+    of tokens is unchanged and every token either has its old text (with its old `lower_value` or `text.lower()`)
+    or carries the fixed text `(v, lo)` of a class whose constructor ignores its argument (`ctor1 c = .fixed v lo`
+    or `C()` = `(v, lo)`) -/
+theorem prog_call_values (S : Sys) (htab : ∀ fd ∈ S.funs.toList, fd.ok Chk.value = true)
+    (n f : Nat) (args : List Val) (st : State) :
+    let st' := ((run S n).call f args st).2
+    st'.toks.size = st.toks.size ∧ ∀ (i : Nat) t t', st.toks[i]? = some t → st'.toks[i]? = some t' → TokStep S t t' :=
+  call_values S htab n f args st
+
+/-- **one fused store, exactly**: either the token list is untouched (any exception, or `L` is not the token list), or
+    exactly the token at the normalised index `X` is replaced by a token of the class `cls` held in `C`, whose text is
+    the OLD text of that token (`lower = text.lower()`) — or the fixed pair of `cls`: `semicolon("x")` is `;` -/
+theorem prog_retag_exact (S : Sys) (l x c : Nat) (b : Bool) (st : State) :
+    ((retag S l x c b st).2.toks = st.toks ∧ (retag S l x c b st).2.nIns = st.nIns ∧ (retag S l x c b st).2.nDel = st.nDel)
+    ∨ ∃ k t t' cls, st.toks[k]? = some t ∧ (retag S l x c b st).2 = (toksSet k t' st).2 ∧ t'.cls = cls
+        ∧ (getVar c st).1 = .ok (.cls cls)
+        ∧ ((b = true ∧ t'.val = t.val ∧ t'.lower = S.lowerS t.val) ∨ fixedPair S t'.val t'.lower) :=
+  retag_spec S l x c b st
+
+/-- corollary: in a system without fixed-text constructors every token keeps its text -/
+theorem prog_call_values_noFixed (S : Sys) (htab : ∀ fd ∈ S.funs.toList, fd.ok Chk.value = true)
+    (hnf : ∀ v lo, ¬ fixedPair S v lo) (n f : Nat) (args : List Val) (st : State) (i : Nat) (t t' : Classify.CTok)
+    (h : st.toks[i]? = some t) (h' : ((run S n).call f args st).2.toks[i]? = some t') : t'.val = t.val := by
+  rcases (call_values S htab n f args st).2 i t t' h h' with ⟨hv, _⟩ | ⟨v, lo, hf, _, _⟩
+  · exact hv
+  · exact absurd hf (hnf v lo)
+
+/-- the functions of the GENERATED table outside the fragment, by name: token-list filters of `utils.py` used by
+    rules, line-level classifiers (comment / pragma / blank / preprocessor), and — reachable from
+    `design_file.tokenize` — `instantiated_unit.classify_entity_name` and the selected-name builders of
+    `classify/utils.py`, which split `a.b.c` into several tokens (they keep the concatenation, not the tokens) -/
+def progValueChanging : List String :=
+  ["utils.combine_two_token_class_lists", "utils.remove_carriage_returns_from_token_list",
+   "utils.remove_comments_from_token_list", "utils.remove_consecutive_whitespace_tokens",
+   "utils.remove_whitespace_from_token_list", "utils.remove_all_trailing_whitespace", "utils.fix_blank_lines",
+   "utils.fix_trailing_whitespace", "classify.blank.classify", "classify.comment.classify",
+   "classify.comment.replace_token_with_ending_token", "classify.comment.remove_last_star_from_previous_token",
+   "classify.comment.classify_delimited_comment_open_keyword", "classify.instantiated_unit.classify_entity_name",
+   "classify.pragma.set_tokens_to_ignore", "classify.pragma.check_for_open_pragmas",
+   "classify.pragma.classify_open_pragmas", "classify.pragma.classify_close_pragmas", "classify.pragma.classify_pragma",
+   "classify.preprocessor.classify", "classify.utils.classify_selected_name",
+   "classify.utils.build_use_clause_selected_name_token_list",
+   "classify.utils.build_context_reference_selected_name_token_list",
+   "classify.utils.classify_use_clause_selected_name_elements",
+   "classify.utils.classify_context_reference_selected_name_elements",
+   "classify.utils.replace_item_in_list_with_a_list_at_index"]
+
+theorem progTable_value_failing :
+    failingNames Chk.value Gen.Prog.progTable = progValueChanging := by decide +kernel
+
+theorem progTable_masked_value :
+    (maskNames progValueChanging Gen.Prog.progTable).all (fun fd => fd.ok Chk.value) = true := by
+  decide +kernel
+
+/-- non-vacuity: the hypothesis of `prog_call_values` holds for every system whose table is the masked generated
+    table (523 of 549 functions stay as translated) -/
+example (S : Sys) (h : S.funs = (maskNames progValueChanging Gen.Prog.progTable).toArray) :
+    ∀ fd ∈ S.funs.toList, fd.ok Chk.value = true := by
+  intro fd hfd
+  rw [h] at hfd
+  have := progTable_masked_value
+  rw [List.all_eq_true] at this
+  exact this fd (by simpa using hfd)
+
+/-- `demoSys` (one function, the store of `assign_next_token`) passes `Chk.value` … -/
+example : ∀ fd ∈ demoSys.funs.toList, fd.ok Chk.value = true := by decide +kernel
+
+/-- … and why the theorem cannot name the NEW class of a token whose text changed: `semicolon("x")` then
+    `identifier(";")` leaves a token of the value-keeping class 9 with the fixed text of class 7 -/
+example :
+    let st1 := ((run demoSys 6).call 0 [.toks, .int 0, .cls 7] (initState demoSys demoToks)).2
+    let st2 := ((run demoSys 6).call 0 [.toks, .int 0, .cls 9] st1).2
+    (st2.toks.toList.map fun t => (t.cls, t.val)) = [(9, [';']), (24, ['y'])] := by decide +kernel
+
+/-- **link masked ↔ full table**: let `F'` be the table of `S` with some functions made opaque.  A call on the masked
+    table that does not end in `unmodelled` — i.e. that never calls a masked function — IS the call on the full
+    table: same result, same final state.  (`./check PROG` re-runs every corpus / variant / corrupted input whose
+    executed-function set avoids the masked names on the masked table and counts the runs reproduced.) -/
+theorem prog_call_link (S : Sys) (F' : Array FunDef) (hM : Masked S F') (n f : Nat) (args : List Val) (st : State)
+    (h : ((run { S with funs := F' } n).call f args st).1 ≠ .error .unmodelled) :
+    (run S n).call f args st = (run { S with funs := F' } n).call f args st :=
+  call_link S F' hM n f args st h
+
+/-- **values, transferred to the FULL generated table**: for every system whose table is the generated `progTable`,
+    a call that the masked table (`progValueChanging` opaque) reproduces without `unmodelled` keeps the number of
+    tokens and every token's text (or writes a fixed constructor text) -/
+theorem prog_call_values_full (S : Sys) (hS : S.funs = (Gen.Prog.progTable.map (·.2)).toArray)
+    (n f : Nat) (args : List Val) (st : State)
+    (h : ((run { S with funs := (maskNames progValueChanging Gen.Prog.progTable).toArray } n).call f args st).1
+      ≠ .error .unmodelled) :
+    let st' := ((run S n).call f args st).2
+    st'.toks.size = st.toks.size ∧ ∀ (i : Nat) t t', st.toks[i]? = some t → st'.toks[i]? = some t' → TokStep S t t' := by
+  have hl := call_link S _ (masked_maskNames S progValueChanging Gen.Prog.progTable hS) n f args st h
+  have htab : ∀ fd ∈ ({ S with funs := (maskNames progValueChanging Gen.Prog.progTable).toArray } : Sys).funs.toList,
+      fd.ok Chk.value = true := by
+    intro fd hfd
+    have := progTable_masked_value
+    rw [List.all_eq_true] at this
+    exact this fd (by simpa using hfd)
+  have hv := call_values { S with funs := (maskNames progValueChanging Gen.Prog.progTable).toArray } htab n f args st
+  simp only
+  rw [hl]
+  exact hv
+
+/-- the same for the length (`progLenChanging` opaque) -/
+theorem prog_call_length_full (S : Sys) (hS : S.funs = (Gen.Prog.progTable.map (·.2)).toArray)
+    (n f : Nat) (args : List Val) (st : State)
+    (h : ((run { S with funs := (maskNames progLenChanging Gen.Prog.progTable).toArray } n).call f args st).1
+      ≠ .error .unmodelled) :
+    ((run S n).call f args st).2.toks.size = st.toks.size := by
+  have hl := call_link S _ (masked_maskNames S progLenChanging Gen.Prog.progTable hS) n f args st h
+  have htab : ∀ fd ∈ ({ S with funs := (maskNames progLenChanging Gen.Prog.progTable).toArray } : Sys).funs.toList,
+      fd.ok Chk.noLen = true := by
+    intro fd hfd
+    have := progTable_masked_noLen
+    rw [List.all_eq_true] at this
+    exact this fd (by simpa using hfd)
+  rw [hl]
+  exact (call_length_noLen { S with funs := (maskNames progLenChanging Gen.Prog.progTable).toArray } htab n f args st).1
+
+/-- non-vacuity of the link: a two-function table, function 1 masked; a call of function 0 (which never reaches
+    function 1) does not end in `unmodelled` on the masked table, a call of function 1 does -/
+def linkSys : Sys := { demoSys with funs := #[demoFun, demoFun] }
+def linkMasked : Array FunDef := (maskNames ["g"] [("f", demoFun), ("g", demoFun)]).toArray
+
+example : Masked linkSys linkMasked := masked_maskNames linkSys ["g"] [("f", demoFun), ("g", demoFun)] rfl
+
+example : (match ((run { linkSys with funs := linkMasked } 6).call 0 [.toks, .int 1, .cls 9] (initState linkSys demoToks)).1 with
+    | .error e => some e | .ok _ => none) = none := by decide +kernel
+
+example : (match ((run { linkSys with funs := linkMasked } 6).call 1 [.toks, .int 1, .cls 9] (initState linkSys demoToks)).1 with
+    | .error e => some e | .ok _ => none) = some .unmodelled := by decide +kernel
+
+end Vsgm.C04
+-- <<< WP1b layer P
